@@ -171,10 +171,11 @@ func specParsed(p *FrameParser) bool {
 //@ modifies nothing
 
 //@ func ReadAndParse
-//@ safety C09
+//@ safety C09 C08
 //@ requires[pre.nonnil]      parser != nil && source != nil
 //@ requires[pre.parsers]     parser.parserv4 != nil && parser.parserv6 != nil
 //@ requires[C10.rap.open]    selb(isOpen, ref(source))
+//@ requires[C08.rap.deadline] selb(rdSet, ref(source))
 //@ ensures[C09.rap.ok]       ret0 == nil ==> specParsed(parser)
 //@ ensures[C09.rap.class]    ret0 != nil && !chain(ret0, *common.ReceiveProbeNoPktError) && !chain(ret0, *common.BadPacketError) ==> ioFail
 //@ ensures[C09.rap.only]     ret0 != nil ==> onlyRepoErrs(ret0, *common.ReceiveProbeNoPktError, *common.BadPacketError)
@@ -184,6 +185,7 @@ func specParsed(p *FrameParser) bool {
 
 //@ iface Source.Read
 //@ requires[C10.src.read.open] selb(isOpen, ref(self))
+//@ requires[C08.src.read.deadline] selb(rdSet, ref(self))
 //@ ensures[src.read.n]    0 <= ret0 && ret0 <= len(buf)
 //@ ensures[src.clock]     now() >= old(now())
 //@ ensures[src.exterr]    ret1 != nil ==> noRepoErr(ret1)
@@ -194,7 +196,9 @@ func specParsed(p *FrameParser) bool {
 //@ requires[C10.src.deadline.open] selb(isOpen, ref(self))
 //@ ensures[src.exterr]    ret0 != nil ==> noRepoErr(ret0)
 //@ ensures[src.io]        ioFail == (old(ioFail) || ret0 != nil)
-//@ modifies ghost ioFail
+//@ ensures[C08.src.deadline] ret0 == nil ==> selb(rdSet, ref(self))
+//@ ensures[src.deadline.frame] forallint(h, h != ref(self) ==> selb(rdSet, h) == old(selb(rdSet, h)))
+//@ modifies ghost ioFail, ghost rdSet
 
 //@ iface Source.Close
 //@ requires[C10.src.close.open]  selb(isOpen, ref(self))
